@@ -125,6 +125,7 @@ type Result struct {
 	Nontrivial bool           // oracle had to discriminate (rule is per profile)
 	SimMillis  int64          // simulated time covered
 	Extra      map[string]int // profile-specific counters (lattice points, ...)
+	Schedule   []int          // scheduler picks actually taken (sched profile); copied into the replay file
 }
 
 func newResult() *Result {
